@@ -23,6 +23,8 @@ EXPLANATION = (
     ' /**/, a comment holding a rule, a comment over two lines, a rule commented out on lines of its own are'
     ' all matched; the empty text is not; a // comment stops at the line end; and the block body is lazy or'
     ' cannot contain */.'
+    " R14.2: a conditional declaration separator (`if not <text>.endswith(';')`) must examine the entry already"
+    ' stored for the selector, not the block about to be appended.'
 )
 TECHNIQUE = (
     "static analysis (no execution): ordered specificity classification of style-assembly statements; def-use closure for comment-strip-before-match and accumulation order; source-order resolution of currentColor; canonical forms of stroke-width scaling"
